@@ -3,6 +3,7 @@ package main
 // Calls (modular / inlined / extern / invoke / builtins), loops, top-level drivers.
 
 import (
+	"os"
 	"fmt"
 	"go/token"
 	"go/types"
@@ -221,6 +222,9 @@ func (ex *Ex) callByContract(fr *Frame, st *State, ins ssa.Instruction, callee *
 	// BEFORE the precondition is evaluated and the frame is havoced - otherwise the local copy
 	// keeps its pre-call content and contradicts the callee's postconditions (vacuous paths)
 	for i := range args {
+		if os.Getenv("GOVC_SELFTEST_NOESCAPE") != "" {
+			break // machinery self-test: re-opens the hole the call canary has to detect
+		}
 		if l := args[i].Ptr; l != nil && l.Cell > 0 && l.Ref == nil && len(l.Path) == 0 {
 			if _, isStruct := st.cellType[l.Cell].Underlying().(*types.Struct); isStruct {
 				r := ex.materialize(fr, st, l.Cell)
@@ -341,6 +345,21 @@ func (ex *Ex) callByContract(fr *Frame, st *State, ins ssa.Instruction, callee *
 	for _, sv := range svs {
 		if sv.Ty.G != nil {
 			ex.assumeTypeInvIf(cf, st, sv.Ty.G, sv.T, tTrue)
+		}
+	}
+	// call canary (vacuity guard): assuming the callee's postconditions must not make a path
+	// infeasible that was feasible before the call (a callee contract contradicting the caller's
+	// state would "prove" everything after the call). Sampled: the first path reaching each call
+	// site. Query 0: facts before the call; query 1: facts after the postconditions.
+	if ex.Vacuity && ins != nil {
+		cname2 := fmt.Sprintf("%s#call.%d.%s.feasible", ex.topPrefix(fr), ord, shortFn(cname))
+		if _, done := ex.Obls[cname2]; !done {
+			o := &Obligation{Name: cname2, Func: ex.Top.Name, Kind: "vacuity", Text: "the postconditions of " + cname + " do not contradict the caller's state (canary pair: after must not be refuted unless before is)", ExpectFail: true, Pair: true}
+			o.Queries = append(o.Queries,
+				&Query{PC: append([]*T(nil), pre.pc...), Goal: tFalse, Heap: copyHeap(pre.heap), Props: ex.Props},
+				&Query{PC: append([]*T(nil), st.pc...), Goal: tFalse, Heap: copyHeap(st.heap), Props: ex.Props})
+			ex.Obls[cname2] = o
+			ex.OblOrder = append(ex.OblOrder, cname2)
 		}
 	}
 	k(st, res)
